@@ -241,10 +241,11 @@ def sentences(a: S.AbsConn, ev, eff, post_tokens, reached=False):
         yield (f"C11-defect-delivered:{cls}", "defective / premature message handed to the application")
     if post.next_in != a.next_in:
         yield (f"C11-defect-advanced-counter:{cls}", "defective / premature message advanced the inbound counter")
-    if not consistent(a):
-        return  # a Logout cannot be journaled under a number that is already taken: outside the quantifier
     if post.state > 3:
+        # whatever happens to the Logout: disconnect() completes (also with a taken journal slot / no transport)
         yield (f"C11-defect-not-disconnected:{cls}", "connection not dropped")
+    if not consistent(a) or not a.sock:
+        return  # the Logout itself can only be demanded when it can be journaled and written
     identifiable = d in ("begin-string", "compid-wrong", "seq-missing", "seq-garbled", "seq-too-low")
     logouts = [w for w in ws if w[0] == "5"]
     if len(ws) != len(logouts) or len(logouts) != (1 if identifiable else 0):
